@@ -248,7 +248,11 @@ def ext_cases(ctx, pairs):
         cn, ci = rng.choice(crate_forms)
         defmode = rng.random() < 0.7
         last = rng.choice(["Thing", "Sprocket"])
-        key = None if not defmode else rng.choice([last, "Other", "Thing", "Renamed"])
+        # definition names equal to / unrelated to the last path segment, and names that are a suffix, a prefix or an extension
+        # of it (the transparent newtype is decided by comparing the two names); all of them Pascal-case words already, so that the
+        # type name is the key itself (re-cased keys are C08's subject)
+        key = None if not defmode else rng.choice([last, last, "Other", "Thing", "Renamed", last[2:].capitalize(), last[-3:].capitalize(),
+                                                   last[:3], last + "X", "X" + last])
         params = rng.choice(params_variants(defmode))
         conf = rng.choice(["absent", "*", "!", "version", "version"])
         req, ver = sample_pairs(2)[rng.randrange(2)]
